@@ -10,6 +10,7 @@
 From Coq Require Import Reals List Lra Psatz Arith.
 From AhrsLib Require Import Base Rot Dcm2q.
 From AhrsModel Require Import C02_itzhack.
+From AhrsGen Require Import C02gen_R.
 Import ListNotations.
 Open Scope R_scope.
 
@@ -190,3 +191,34 @@ Example K3_identity : K3of (Rspec [1;0;0;0]) = [-1/3;0;0;0; 0;-1/3;0;0; 0;0;-1/3
 Proof. unfold_k. list_eq; field. Qed.
 Example K3_identity_eigpair : mv4 (K3of (Rspec [1;0;0;0])) (qt 1 0 0 0) = vsc 1 (qt 1 0 0 0) /\ vn2 (qt 1 0 0 0) = 1.
 Proof. rewrite K3_identity. unfold_k. split; [list_eq; field|ring]. Qed.
+
+(* ---- the REAL code after the LAPACK call (version 3, the default) ---------------------------------------------
+   C02_itzhack_post_v3 is regenerated from orientation.itzhack with the eigen-solver replaced by symbolic eigenvalues
+   l0..l3 and eigenvector matrix (v_ij) (columns are eigenvectors): column selection by argmax, np.roll, negation of the
+   scalar part and the final normalisation are those of the source.  If every returned column is a real unit eigenvector
+   of K3(Rspec q) for its eigenvalue and the eigenvalue 1 of K3 (K_eigvec_one) is among those returned, the code
+   returns +-q. *)
+Definition eigpair (K : list R) (lam a b c d : R) : Prop := mv4 K [a;b;c;d] = vsc lam [a;b;c;d] /\ a*a+b*b+c*c+d*d = 1.
+
+Ltac post_leaf w x y z Hq lam a b c d HP :=
+  let Hl := fresh in assert (Hl : -1/3 < lam) by lra;
+  let s := fresh "s" in let Hs := fresh "Hs" in let E := fresh "E" in
+  destruct (K3_select w x y z a b c d lam Hq (proj2 HP) (proj1 HP) Hl) as (_ & s & Hs & E);
+  revert E; cbv [vsc qt e List.nth]; intros E; injection E as -> -> -> ->;
+  exists s; split; [exact Hs|];
+  pose proof (is_sign_sq s Hs) as Hs2;
+  (let e := goal_rad in replace e with 1 by (replace e with ((s*s)*(w*w+x*x+y*y+z*z)) by ring; rewrite Hs2, Hq; ring));
+  rewrite sqrt_1; unfold qsc; val_eq; field.
+
+Lemma itzhack_v3_code w x y z l0 l1 l2 l3 v00 v01 v02 v03 v10 v11 v12 v13 v20 v21 v22 v23 v30 v31 v32 v33 :
+  w*w+x*x+y*y+z*z = 1 ->
+  let K := K3of (Rspec [w;x;y;z]) in
+  eigpair K l0 v00 v10 v20 v30 -> eigpair K l1 v01 v11 v21 v31 -> eigpair K l2 v02 v12 v22 v32 -> eigpair K l3 v03 v13 v23 v33 ->
+  (l0 = 1 \/ l1 = 1 \/ l2 = 1 \/ l3 = 1) ->
+  signed_q w x y z (C02_itzhack_post_v3_R l0 l1 l2 l3 v00 v01 v02 v03 v10 v11 v12 v13 v20 v21 v22 v23 v30 v31 v32 v33).
+Proof.
+  intros Hq K P0 P1 P2 P3 H1. unfold signed_q. cbv beta delta [C02_itzhack_post_v3_R]. cbv zeta.
+  repeat destr_dec;
+  first [ post_leaf w x y z Hq l0 v00 v10 v20 v30 P0 | post_leaf w x y z Hq l1 v01 v11 v21 v31 P1
+        | post_leaf w x y z Hq l2 v02 v12 v22 v32 P2 | post_leaf w x y z Hq l3 v03 v13 v23 v33 P3 ].
+Qed.
